@@ -1,4 +1,5 @@
 import DS.Lemmas.World
+import DS.Lemmas.WorldAlias
 /-!
 # C08 — a Structure stays a consistent list of atoms in one lattice under any edits
 
@@ -19,8 +20,16 @@ evaluated on the pre-state of the step they constrain.
   anything that existed before.
 * `selections_share` — slice / index array / mask / tuple selections hold exactly the selected atom
   objects and the lattice object of their source.
-* `no_alias_partial` — no atom object in two slots, unless a non-copying insertion or a slice
-  assignment listed it twice (proved for the edits of `CoreEdit`; `no_alias_statement` is the full one).
+* `no_alias : no_alias_statement` — no atom object in two slots, unless a non-copying insertion or a
+  slice assignment listed it twice; **every** operation of `Op` (extended-slice assignment
+  `s[i:j:k] = …` and pickle protocols 0/1 included).  `no_alias_partial` is the round-2 form (edits of
+  `CoreEdit` only) and is subsumed (`dupFreeHistX_of_dupFreeHist`).  The statement recorded up to round 4
+  (`no_alias_statement_plainRemain`) is **false**: `no_alias_statement_plainRemain_false`, with the
+  concrete history `witnessExtSliceNoCopy` replayed on the implementation — the side condition was too
+  weak for extended slices (not a defect of the code).
+* `copies_disjoint_all`, `inserted_copies_fresh_all`, `selections_share_all`, `docKind` — the same
+  guarantees stated over a total classification of `Op` (nothing documented as a copy / selection
+  is left out of the enumeration).
 -/
 namespace DS.Props.C08
 open DS.World
@@ -587,12 +596,17 @@ history whose steps satisfy `World.DupFree` — on the pre-state of each step: t
 *without copying* (explicit `copy=False`, the members a slice assignment keeps, the members an
 index array / tuple selects) are pairwise different and are not members that stay in the target.
 Covered edits: everything except assignment to an extended slice (step ≠ 1) and pickling with
-protocol 0/1 (see `no_alias_statement`). -/
+protocol 0/1 — superseded by `no_alias` below, which has no such restriction. -/
 theorem no_alias_partial {w : World} (hw : Wf w) (hn : w.NodupInv) (ops : List Op) (hd : World.DupFreeHist w ops) :
     (w.run ops).NodupInv :=
   World.run_nodup hw hn ops hd
 
-/-- the same side condition without the restriction to the covered edits -/
+/-! ### 4a. the statement recorded before round 5 is false (its side condition was too weak) -/
+
+/-- the side condition as it was first written: `remain` describes the members that stay in place
+for a *contiguous* slice assignment only; for an extended slice `s[i:j:k] = …` it names
+`old[:start] ++ old[max stop start:]`, which says nothing about the members *between* the addressed
+positions -/
 def DupRequestFree (w : World) (op : Op) : Prop :=
   match planG w.view op with
   | .ok (.plan p) =>
@@ -604,10 +618,106 @@ def DupRequestFreeHist : World → List Op → Prop
   | _, [] => True
   | w, op :: ops => DupRequestFree w op ∧ DupRequestFreeHist (w.stepFull op).1 ops
 
-/-- the full statement (extended-slice assignment and protocol-0/1 pickling included); not proved
-here — the differential check exercises these two forms on every run -/
-def no_alias_statement : Prop :=
+instance (w : World) (op : Op) : Decidable (DupRequestFree w op) := by
+  unfold DupRequestFree
+  split <;> infer_instance
+
+instance decDupRequestFreeHist : (w : World) → (ops : List Op) → Decidable (DupRequestFreeHist w ops)
+  | _, [] => isTrue trivial
+  | w, op :: ops => @instDecidableAnd _ _ _ (decDupRequestFreeHist (w.stepFull op).1 ops)
+
+/-- the statement with that side condition (kept verbatim; it was `no_alias_statement` up to round 4) -/
+def no_alias_statement_plainRemain : Prop :=
   ∀ (w : World) (ops : List Op), Wf w → w.NodupInv → DupRequestFreeHist w ops → (w.run ops).NodupInv
+
+/-- `s = Structure(2 atoms); s.__setitem__(slice(None, None, 2), [s[1]], copy=False)`: the caller hands
+over, uncopied, a member that stays in the structure — slot 0 and slot 1 then hold the same atom -/
+def witnessExtSliceNoCopy : List Op :=
+  [.mkStru, .addNew 0 1, .addNew 0 2, .setslice 0 ⟨none, none, some 2⟩ (.list [.mem 0 1]) false]
+
+/-- the old side condition lets this history through … -/
+theorem witnessExtSliceNoCopy_passes_old_condition : DupRequestFreeHist World.empty witnessExtSliceNoCopy := by decide
+
+/-- … and the structure ends up as `[a1, a1]` (payloads `[2, 2]`, one atom object) -/
+theorem witnessExtSliceNoCopy_result :
+    (World.empty.run witnessExtSliceNoCopy).atomsOf 0 = [1, 1] ∧
+    (World.empty.run witnessExtSliceNoCopy).abs.lists = [some [2, 2]] := by decide
+
+theorem empty_nodupInv : World.empty.NodupInv := by
+  intro s hs; simp [World.empty] at hs
+
+/-- **the statement with the contiguous-slice side condition is false** of the model (and of the code:
+the history is replayed on the implementation by `harness/c08.py`, which shows the same `[a1, a1]`).
+This is not a defect of the code — the caller passed `copy=False` together with an atom that remains a
+member, which the property text exempts — but a side condition that failed to say so. -/
+theorem no_alias_statement_plainRemain_false : ¬ no_alias_statement_plainRemain := by
+  intro h
+  have h1 := h World.empty witnessExtSliceNoCopy World.empty_wf empty_nodupInv witnessExtSliceNoCopy_passes_old_condition
+  have h2 := h1 ⟨[1, 1], 1, true⟩ (by decide) rfl
+  revert h2
+  decide
+
+/-! ### 4b. the full theorem -/
+
+/-- side condition of one step (`World.DupFreeX`, Boolean, on the pre-state): the atoms the operation
+takes over **without copying** (explicit `copy=False`; the members a slice assignment keeps; what an
+index selection selects; `extend` with the default flag keeps only atoms met for the first time) are
+pairwise different, and none of them is a member that stays in the target — for an extended slice
+`s[i:j:k] = …` these are exactly the members at the positions the slice does not address
+(`remainX`).  No restriction on the kind of operation; pickling (any protocol) needs no condition. -/
+abbrev DupFreeX := World.DupFreeX
+
+/-- **the full statement**: every operation of `Op`, extended-slice assignment and pickle protocols
+0/1 included -/
+def no_alias_statement : Prop :=
+  ∀ (w : World) (ops : List Op), Wf w → w.NodupInv → World.DupFreeHistX w ops → (w.run ops).NodupInv
+
+/-- **no_alias**: if no live structure holds an atom object in two slots, this still holds after any
+history in which the caller never hands over a duplicate uncopied -/
+theorem no_alias : no_alias_statement :=
+  fun _ ops hw hn hd => World.run_nodupX hw hn ops hd
+
+theorem dupFreeHistX_take {w : World} {ops : List Op} (hd : World.DupFreeHistX w ops) (k : Nat) :
+    World.DupFreeHistX w (ops.take k) := by
+  induction ops generalizing w k with
+  | nil => simpa using hd
+  | cons op ops ih =>
+    cases k with
+    | zero => trivial
+    | succ k => exact ⟨hd.1, ih hd.2 k⟩
+
+/-- … after *every* step of the history -/
+theorem no_alias_every_step {w : World} (hw : Wf w) (hn : w.NodupInv) (ops : List Op) (hd : World.DupFreeHistX w ops)
+    (k : Nat) : (w.run (ops.take k)).NodupInv :=
+  no_alias w _ hw hn (dupFreeHistX_take hd k)
+
+/-- the restricted side condition of `no_alias_partial` implies the full one: `no_alias` subsumes it -/
+theorem dupFreeHistX_of_dupFreeHist {w : World} {ops : List Op} (hd : World.DupFreeHist w ops) :
+    World.DupFreeHistX w ops := by
+  induction ops generalizing w with
+  | nil => trivial
+  | cons op ops ih => exact ⟨World.dupFreeX_of_dupFree hd.1, ih hd.2⟩
+
+/-- the corrected side condition does reject the witness of 4a -/
+theorem witnessExtSliceNoCopy_rejected : ¬ World.DupFreeHistX World.empty witnessExtSliceNoCopy := by decide
+
+/-- one step, pickling with protocol 0 or 1 (the form `no_alias_partial` excludes): no hypothesis beyond
+the invariant itself -/
+theorem no_alias_pickle01 {w : World} (hw : Wf w) (hn : w.NodupInv) (h proto : Nat) :
+    (w.stepFull (.pickle h proto)).1.NodupInv := by
+  apply World.stepFull_nodupX hw hn
+  simp only [World.DupFreeX]
+  split
+  · rename_i act hact
+    simp only [planG] at hact
+    split at hact
+    · cases hact
+    · split at hact
+      · cases hact
+        exact ⟨by simp only [World.keptOf_allTrue]; exact List.nodup_nil,
+               by simp only [World.keptOf_allTrue]; intro y hy; simp at hy⟩
+      · cases hact; trivial
+  · trivial
 
 /-- a duplicate that the caller asked for does end up in two slots: `s.append(s[0], copy=False)` -/
 theorem alias_when_asked :
@@ -616,9 +726,6 @@ theorem alias_when_asked :
   have := h ⟨[0, 0], 1, true⟩ (by decide) rfl
   revert this
   decide
-
-theorem empty_nodupInv : World.empty.NodupInv := by
-  intro s hs; simp [World.empty] at hs
 
 /-! ## non-vacuity: a concrete history that satisfies every hypothesis used above -/
 
@@ -661,5 +768,30 @@ example : (World.empty.run goodHistory2).NodupInv := no_alias_partial World.empt
 example : (World.empty.run goodHistory2).abs.lists =
     [some [1, 1, 1, 2, 3, 3], some [1, 1, 2], some [3, 1], some [1, 2, 3, 1, 2, 3], some [1, 1, 2, 3]] := by decide
 example : IsCopyOp (.sub 0 (.stru 2)) ∧ CopiesInto (.imul 1 2) 1 := ⟨.sub _ _, .imul _ _⟩
+/-- for `no_alias`: the two forms `no_alias_partial` excludes, successfully executed —
+`s[::2] = [a, s[0]]` with `copy=False` (a free atom and a member *of the slice*), `s[-1::-2] = [s[1], b]` with
+the default flag (member of the slice kept, free atom copied), pickling with protocols 0, 1 and 2, an
+index-array selection, an extended-slice assignment of the wrong length (ValueError), `sort`, `-=`, an
+extended-slice assignment from a generator, `extend(s.tolist())` with the default flag (members copied) -/
+def goodHistory3 : List Op :=
+  [.mkStru, .addNew 0 1, .addNew 0 2, .addNew 0 3, .addNew 0 4, .mkAtom 5, .mkAtom 6,
+   .setslice 0 ⟨none, none, some 2⟩ (.list [.pool 0, .mem 0 0]) false,
+   .setslice 0 ⟨some (-1), none, some (-2)⟩ (.list [.mem 0 1, .pool 1]) true,
+   .pickle 0 0, .pickle 0 1, .pickle 1 2, .getitem 0 (.arr [3, 0]),
+   .setslice 0 ⟨none, none, some 3⟩ (.stru 0) true, .sort 0, .isub 0 (.list [.mem 0 0]),
+   .setslice 2 ⟨some 1, none, some 2⟩ (.gen [.mem 2 3, .mem 2 1]) true, .extend 4 (.tolist 4) .dflt]
+example : World.DupFreeHistX World.empty goodHistory3 := by decide
+/-- … which the restricted side condition of `no_alias_partial` does not admit -/
+example : ¬ World.DupFreeHist World.empty goodHistory3 := by decide
+example : (World.empty.run goodHistory3).NodupInv := no_alias _ _ World.empty_wf empty_nodupInv (by decide)
+example : (World.empty.run goodHistory3).abs.lists =
+    [some [2, 5, 6], some [5, 6, 1, 2], some [5, 2, 1, 6], some [5, 6, 1, 2], some [2, 5, 2, 5]] ∧
+    (World.empty.run goodHistory3).strus.map (·.atoms) =
+    [[1, 4, 6], [7, 8, 9, 10], [11, 14, 13, 12], [15, 16, 17, 18], [1, 4, 21, 22]] := by decide
+example : World.errTrace World.empty goodHistory3 =
+    [none, none, none, none, none, none, none, none, none, none, none, none, none, some .value, none, none, none, none] := by
+  decide
+/-- `goodHistory2` (the non-vacuity witness of `no_alias_partial`) also satisfies the full side condition -/
+example : World.DupFreeHistX World.empty goodHistory2 := dupFreeHistX_of_dupFreeHist (by decide)
 
 end DS.Props.C08
